@@ -20,7 +20,14 @@ pub fn lift_ssa(c: &SemCase) -> Result<Cfg, Bad> {
         Err(obs::LiftFail::Panic(p)) => return Err(Bad::new(format!("lifting panicked: {p}")).sig("SEM:lift-panic").rendered(c.r.src.clone())),
         Err(e) => return Err(Bad::new(format!("generated definition rejected: {}", e.describe())).sig("SEM:rejected").rendered(c.r.src.clone())),
     };
-    match obs::to_ssa(l.cfg) {
+    // bound the number of propagation passes instead of relying on the 10 s wall-clock bail-out
+    // (deterministic; a cut is harmless for soundness, which is what C20 checks)
+    program_structure::cfg::verif_hooks::set_value_budget(Some(5000));
+    program_structure::cfg::verif_hooks::set_degree_budget(Some(5000));
+    let r = obs::to_ssa(l.cfg);
+    program_structure::cfg::verif_hooks::set_value_budget(None);
+    program_structure::cfg::verif_hooks::set_degree_budget(None);
+    match r {
         Ok(s) => Ok(s),
         Err(obs::SsaFail::Error(r)) => Err(Bad::new(format!("SSA conversion rejected the generated definition: {}", r.message())).sig("SEM:ssa-rejected").rendered(c.r.src.clone())),
         Err(obs::SsaFail::Panic(p)) => Err(Bad::new(format!("into_ssa panicked: {p}")).sig("SEM:ssa-panic").rendered(c.r.src.clone())),
@@ -289,7 +296,7 @@ pub fn run(ctx: &Ctx) -> i32 {
         let r = replay_known(ctx, k);
         outcome.known_replay(k, r);
     }
-    let fails = run_tapes(ctx, "value_claims", ctx.tier.pick(12_000, 300_000), 4000, &stats, case);
+    let fails = run_tapes_opts(ctx, "value_claims", ctx.tier.pick(12_000, 300_000), 4000, 250, &stats, case);
     outcome.absorb(&known, fails);
     finish(
         ctx,
